@@ -377,6 +377,10 @@ def gen_session(prop: str, tier: str, seed: int) -> dict:
             ops[-1]['fill'] = 'rng'
             ops[-1]['entries'] = 'complex'
             ops[-1].pop('value', None)
+        if rng.chance(0.12):
+            # start states with exact zeros inside their tensors (scattered, or a single basis configuration)
+            ops.append({'op': 'edit', 'sel': rng.sub(), 'kind': 'mps', 'site': rng.sub(), 'what': rng.pick(['sparsify', 'sparsify', 'basis_state']),
+                        'step': 1, 'sub': rng.sub(), 'factor': 1.0})
     else:
         ops.append(gen_new_mps(rng, cfg))
         if rng.chance(0.6):
@@ -409,6 +413,8 @@ def gen_session(prop: str, tier: str, seed: int) -> dict:
 
 
 def _dt(rng: Rng, profile, complete):
+    if rng.chance(0.02):
+        return [0.0, 0.0]          # a time grid that starts with a zero step
     if profile == 'C09':
         mag = rng.uniform(0.05, 0.5)
         kind = rng.pick(['imag', 'real', 'complex', 'complex'])
@@ -470,7 +476,7 @@ def gen_op(rng: Rng, cfg, kind: str) -> dict:
     if kind == 'edit':
         return {'op': 'edit', 'sel': s(), 'kind': rng.wpick([('mps', 3), ('mpo', 1)]), 'site': s(),
                 'what': rng.pick(['scale', 'scale_inplace', 'clamp', 'bonddiag', 'real', 'int', 'zero_site', 'dupbond', 'product', 'ghz', 'staircase',
-                                  'staircase', 'unbalance', 'tiny', 'local_op_inplace', 'uniform', 'nearly_one']),
+                                  'staircase', 'unbalance', 'tiny', 'local_op_inplace', 'uniform', 'nearly_one', 'bond_permute', 'bond_permute', 'charge_offset', 'sparsify', 'sparsify', 'basis_state']),
                 'step': rng.pick([1, 1, 4, 8, 10]),
                 'sub': s(), 'factor': rng.pick([2.0, -1.0, 0.5, 1e-3, 1e3, [0.0, 1.0], 0.25])}
     if kind in ('add', 'sub'):
@@ -494,7 +500,7 @@ def gen_op(rng: Rng, cfg, kind: str) -> dict:
                 'tol': rng.pick(DYADIC_TOLS) if rng.chance(0.5) else 0.0}
     if kind == 'tdvp':
         return {'op': 'tdvp', 'H': s(), 'psi': s(), 'sites': rng.pick([1, 1, 2]), 'dt': _dt(rng, profile, cfg.get('complete')), 'extreme': rng.chance(0.05),
-                'n': rng.pick([1, 1, 2, 3]) if not (L <= 4 and cfg['Dmax'] <= 4 and not cfg.get('fat') and rng.chance(0.02 if profile != 'C09' else 0.06))
+                'n': rng.pick([1, 1, 2, 3, 1, 1, 2, 3, 1, 1, 2, 3, 0]) if not (L <= 4 and cfg['Dmax'] <= 4 and not cfg.get('fat') and rng.chance(0.02 if profile != 'C09' else 0.06))
                 else (rng.randrange(51, 58) if profile != 'C09' else rng.randrange(51, 140)),
                 'numiter': rng.pick(NUMITERS_TDVP) if profile != 'C09' else rng.pick([12, 16, 25, 40]),
                 'tol_split': 0.0 if ((profile in ('C08', 'C09') and rng.chance(0.85)) or rng.chance(0.6)) else rng.pick([1e-10, 1e-7, 1e-6, 1e-3, 0.0625])}
